@@ -128,7 +128,7 @@ E2E = {
 }
 
 
-def e2e_part(name, profiles, pairs, tags, nontrivial, n_quick=120, n_thorough=1200, build=True, runit=True):
+def e2e_part(name, profiles, pairs, tags, nontrivial, n_quick=120, n_thorough=1200, build=True, runit=True, extra=None):
     def _check(rep, tier):
         from . import e2e_eval as EV
         total = n_quick if tier == "quick" else n_thorough
@@ -145,6 +145,10 @@ def e2e_part(name, profiles, pairs, tags, nontrivial, n_quick=120, n_thorough=12
                 stats["batches"] += 1
                 stats["programs"] += len(progs)
                 done += len(progs)
+                if extra:
+                    d2, f2 = extra(rep, units, info)
+                    dis += d2
+                    fails += f2
                 if info["unattributed"]:
                     # wire printed something we could not attribute: for a crash this is C20's
                     # business; here it makes the batch unusable and is reported as a broken tie
@@ -272,3 +276,31 @@ register("C09",
          "non-trivial = list of length >= 2",
          [stream_part("C09", lambda tier: [("signatures", "sig", ["-nodes", 4])],
                       nontrivial=lambda case, im: len(case.get("raw", [])) >= 3, exhaustive=True)])
+
+
+def _c14_extra(rep, units, info):
+    from . import e2e_names
+    dis, n = e2e_names.name_correspondence(units)
+    rep.coverage["injectors_named"] = rep.coverage.get("injectors_named", 0) + n
+    fails = []
+    for ur in units:
+        # behaviour must not change under renaming: any oracle failure here is a capture or collision
+        bad = [m for _, m in ur.run_bad + ur.emit_bad] + ["does not compile: " + m for m in ur.build_errors[:3]]
+        if bad:
+            from . import e2e_eval as EV
+            fails.append({"stream": "e2e-names", "request": ur.request, "impl": ur.impl, "why": bad[:4],
+                          "program": ur.prog.name, "files": EV.G.materialise(ur.prog)})
+    return dis, fails
+
+
+register("C14",
+         "unit tier: real disambiguate / typeVariableName / export / unexport on names and taken-sets drawn from an "
+         "adversarial pool (err, cleanup, keywords and predeclared names in all capitalisations, numeric suffixes); "
+         "e2e tier: generated programs whose packages, types, parameters and extra package-level declarations are renamed "
+         "from the pool (two packages with one name, parameters named like imports / like derived locals / nil / _ / none); "
+         "every binder of every generated injector compared by name with WireV.nameInjector; programs are compiled and run "
+         "(behaviour must equal the un-renamed expectation); non-trivial = request mentioning a pool collision / renamed program",
+         [stream_part("C14", lambda tier: [("names", "names", ["-seed", seed(), "-n", 20000 if tier == "quick" else 300000])],
+                      nontrivial=lambda case, im: len(case.get("raw", [])) >= 3),
+          e2e_part("C14", [("n", {"adversarial": True, "p_err": 0.5, "p_cleanup": 0.5})], _pairs_plan, set(),
+                   lambda ur: (ur.impl or "").startswith("ok"), n_quick=100, n_thorough=1000, extra=_c14_extra)])
